@@ -3,6 +3,7 @@ package main
 import (
 	"fmt"
 	"go/token"
+	"go/types"
 	"strings"
 
 	"golang.org/x/tools/go/ssa"
@@ -230,4 +231,110 @@ func ruleReaderOffsets(r *Report) {
 		}
 	}
 	_ = p
+}
+
+// R-seek-trial: SeekNext's trial reads. A marker inside a payload makes SeekNext parse a header that is none; whatever
+// that parse fails with (wrong checksum, truncated or overflowing varint, …) only means "no record starts here".
+// The parse failures cannot be listed by sentinel (encoding/binary's overflow error is not exported), so the header
+// parse error must travel in a module-defined error type that SeekNext recognises with errors.As.
+func ruleSeekTrial(r *Report) {
+	const rule = "seek-trial"
+	r.Rule(rule, 2, "the random-access reader wraps every failure of parsing a record header (v3, v4) in one module-defined error type, and SeekNext treats a trial read that failed with that type as \"no record starts here\" and keeps scanning; only file read failures abort the seek")
+	var marker types.Type
+	for _, k := range []string{"recordio.MMapReader.ReadNextAt", "recordio.readNextAtV3"} {
+		fn := r.NeedFunc(rule, k)
+		if fn == nil {
+			continue
+		}
+		key := rule + "/" + k + "/header-failure-typed"
+		sites := CallsIn(fn, Keys("recordio.readRecordHeaderV4", "recordio.readRecordHeaderV3"))
+		if len(sites) == 0 {
+			r.Missing(rule, key, "no record header parse in "+k)
+			continue
+		}
+		var found types.Type
+		for _, s := range sites {
+			al := errAliases(s)
+			eachInstr(fn, func(t Site) {
+				st, ok := t.Instr.(*ssa.Store)
+				if !ok || !al[st.Val] {
+					return
+				}
+				fa, ok := st.Addr.(*ssa.FieldAddr)
+				if !ok {
+					return
+				}
+				pt, ok := fa.X.Type().(*types.Pointer)
+				if !ok {
+					return
+				}
+				nt, ok := pt.Elem().(*types.Named)
+				if !ok || nt.Obj().Pkg() == nil || !strings.HasPrefix(nt.Obj().Pkg().Path(), modPath) {
+					return
+				}
+				if types.Implements(pt, errorIface()) || types.Implements(nt, errorIface()) {
+					found = nt
+				}
+			})
+		}
+		if found == nil {
+			r.Bad(rule, key, sites[0].Pos(), "a header parse failure is returned as a plain wrapped error: SeekNext cannot tell it from a file read failure, so a payload that contains the record marker followed by bytes that fail to parse with anything but a marker/checksum mismatch or io.EOF (e.g. marker, 0x00, 12×0xff: \"varint overflows\") aborts the seek; a table with such a key cannot be opened through the disk index")
+		} else {
+			marker = found
+			r.OK(rule, key, sites[0].Pos(), "header parse failures carry "+types.TypeString(found, nil))
+		}
+	}
+	fn := r.NeedFunc(rule, "recordio.MMapReader.SeekNext")
+	if fn == nil {
+		return
+	}
+	key := rule + "/recordio.MMapReader.SeekNext/typed-failure-skipped"
+	trials := CallsIn(fn, Keys("recordio.MMapReader.ReadNextAt"))
+	if len(trials) == 0 {
+		r.Missing(rule, key, "no trial read in SeekNext")
+		return
+	}
+	if marker == nil {
+		r.Bad(rule, key, trials[0].Pos(), "SeekNext has no typed header failure to recognise (see header-failure-typed)")
+		return
+	}
+	ok := false
+	for _, tr := range trials {
+		al := errAliases(tr)
+		for _, b := range liveBlocks(fn) {
+			cnd, tS, _, tE, _, is := effCond(b)
+			if !is || !tE {
+				continue
+			}
+			c, isC := cnd.(*ssa.Call)
+			if !isC || CalleeKey(c) != "errors.As" || len(c.Call.Args) != 2 || !al[stripIface(c.Call.Args[0])] {
+				continue
+			}
+			// target: pointer to *marker
+			tt := stripIface(c.Call.Args[1]).Type()
+			pp, isP := tt.(*types.Pointer)
+			if !isP {
+				continue
+			}
+			inner := pp.Elem()
+			if ip, isIP := inner.(*types.Pointer); isIP {
+				inner = ip.Elem()
+			}
+			if !types.Identical(inner, marker) {
+				continue
+			}
+			if !endsInFailingReturn(tS) && reachFrom(tS, nil)[tr.Block] {
+				ok = true
+			}
+		}
+	}
+	if ok {
+		r.OK(rule, key, trials[0].Pos(), "errors.As(err, *"+types.TypeString(marker, nil)+") → keep scanning")
+	} else {
+		r.Bad(rule, key, trials[0].Pos(), "SeekNext does not skip a candidate whose header failed to parse (typed failure not recognised, or the recognised side gives up)")
+	}
+}
+
+func errorIface() *types.Interface {
+	return types.Universe.Lookup("error").Type().Underlying().(*types.Interface)
 }
